@@ -31,8 +31,15 @@ package connectconformance
 //@   pure
 //@   ensures result == sdefOf(self) && (result == nil || allocated(result))
 
+// a raw response is prescribed when the first request message - of either kind, unary-style or
+// stream-style - decodes and its response definition carries one
 //@ func hasRawResponse
 //@   modifies pbDecodedFrom, lastDecoded
+//@   ensures @none len(reqs) == 0 || !anyUnpackOK(reqs[0]) ==> !result
+//@   ensures @stream len(reqs) > 0 && anyUnpackOK(reqs[0]) && typeis(lastDecoded[reqs[0]], streamResponseDefiner) && !typeis(lastDecoded[reqs[0]], unaryResponseDefiner) &&
+//@        sdefOf(lastDecoded[reqs[0]]) != nil && sdefOf(lastDecoded[reqs[0]]).RawResponse != nil ==> result
+//@   ensures @unary len(reqs) > 0 && anyUnpackOK(reqs[0]) && typeis(lastDecoded[reqs[0]], unaryResponseDefiner) &&
+//@        udefOf(lastDecoded[reqs[0]]) != nil && udefOf(lastDecoded[reqs[0]]).RawResponse != nil ==> result
 
 // Padding: on success every request with a size directive has serialized size exactly
 // server receive limit (200 KiB) + the requested offset; never a panic.
@@ -75,5 +82,7 @@ package connectconformance
 //@           invariant @b forall i int :: 0 <= i && i <= rangeindex ==> suite.TestCases[i].Request != nil
 //@           invariant @c forall i int :: 0 <= i && i <= rangeindex ==> allocated(suite.TestCases[i].Request)
 //@           invariant forall k string :: has(allSuites, k) ==> wfSuite(allSuites[k])
+//@   //# size directives are only accepted in suites restricted to the proto codec (the sizes are computed with it)
+//@   assert_at "expandRequestData(testCase)": len(testCase.ExpandRequests) > 0 ==> len(suite.RelevantCodecs) == 1 && suite.RelevantCodecs[0] == 1
 //@   assume_at "expandRequestData(testCase)": forall i int, j int :: 0 <= i && i < j && j < len(testCase.Request.RequestMessages) ==> testCase.Request.RequestMessages[i] != testCase.Request.RequestMessages[j]
 //@   //# (the elements of a repeated field of a freshly parsed message are distinct objects)
